@@ -34,7 +34,7 @@ ASSUMPTIONS = [
     'files used',
     'exceptions compare by type; digests cover public attributes only',
 ]
-KINDS = {'bfs': (16, 32, 1), 'hist_dwarf': (48, 1200, 2), 'hist_elf': (48, 1200, 2), 'hist_cfi': (60, 1500, 4)}
+KINDS = {'bfs': (16, 32, 1), 'hist_dwarf': (48, 1200, 2), 'hist_elf': (48, 1200, 2), 'hist_cfi': (60, 1500, 4), 'hist_lists': (80, 2000, 4)}
 FLOOR = {'quick': 5000, 'thorough': 100000}
 CASE_TIMEOUT = 3000
 STEP_BUDGET = 2000000000
@@ -786,14 +786,140 @@ def run_hist_cfi(idx, rng, sh):
     sh.sample({'mode': 'cfi-history', 'section': name, 'entries': len(ents), 'operations': len(hist)}, kind='hist_cfi')
 
 
+def run_hist_lists(idx, rng, sh):
+    """Location and range lists: lookups by offset, section walks, per-contribution walks and walks that are interleaved
+    with lookups, in random order on one object, each answer compared with a fresh object's answer to the same query."""
+    from . import c07
+    le = rng.random() < 0.5
+    asz = rng.choice([4, 8])
+    v5 = rng.random() < 0.6
+    secs, units = (c07.gen_v5 if v5 else c07.gen_v4)(rng, le, asz)
+    rname, lname = ('.debug_rnglists', '.debug_loclists') if v5 else ('.debug_ranges', '.debug_loc')
+
+    def mk():
+        di, streams = G.make_dwarfinfo(secs, le, TracedBytesIO, default_address_size=asz)
+        return dict(di=di, rl=di.range_lists(), ll=di.location_lists(), cus=list(di.iter_CUs()), st=list(streams.values()))
+    if v5:
+        roffs = [(ui, L['off']) for ui, U in enumerate(units) for L in U['rng']['lists']]
+        loffs = [(ui, L['off']) for ui, U in enumerate(units) for L in U['loc']['lists']]
+    else:
+        roffs = [(ui, o) for ui, U in enumerate(units) for o, e in U['rexp']]
+        loffs = [(ui, o) for ui, U in enumerate(units) for o, e in U['lexp']]
+
+    def apply(o, op):
+        k = op[0]
+        try:
+            if k == 'rl_at':
+                return repr(c07.dr(o['rl'].get_range_list_at_offset(op[2], o['cus'][op[1]]) if v5 else o['rl'].get_range_list_at_offset(op[2])))
+            if k == 'rl_at_ex':
+                return repr([(e.entry_type, e.entry_offset) for e in o['rl'].get_range_list_at_offset_ex(op[2])])
+            if k == 'rl_iter':
+                return repr([c07.dr(x) for x in itertools.islice(o['rl'].iter_range_lists(), op[1])])
+            if k == 'rl_cus':
+                return repr([(h.cu_offset, h.unit_length, h.offset_count) for h in o['rl'].iter_CUs()])
+            if k in ('rl_cu_ex', 'rl_cu_ex_mixed'):
+                h = list(o['rl'].iter_CUs())[op[1]]
+                out = []
+                for n, L in enumerate(o['rl'].iter_CU_range_lists_ex(h)):
+                    out.append([(e.entry_type, e.entry_offset) for e in L])
+                    if n + 1 >= op[2]:
+                        break
+                    if k == 'rl_cu_ex_mixed':
+                        o['rl'].get_range_list_at_offset_ex(op[3])     # another query between two steps of the walk
+                return repr(out)
+            if k == 'll_at':
+                d = o['cus'][op[1]].get_top_DIE()
+                return repr(c07.dl(o['ll'].get_location_list_at_offset(op[2], d) if v5 else o['ll'].get_location_list_at_offset(op[2])))
+            if k in ('ll_iter', 'll_iter_mixed'):
+                out = []
+                for n, L in enumerate(o['ll'].iter_location_lists()):
+                    out.append(c07.dl(L))
+                    if n + 1 >= op[1]:
+                        break
+                    if k == 'll_iter_mixed':
+                        d = o['cus'][op[2]].get_top_DIE()
+                        if v5:
+                            o['ll'].get_location_list_at_offset(op[3], d)
+                        else:
+                            o['ll'].get_location_list_at_offset(op[3])
+                return repr(out)
+            if k == 'rl_iter_mixed':
+                out = []
+                for n, L in enumerate(o['rl'].iter_range_lists()):
+                    out.append(c07.dr(L))
+                    if n + 1 >= op[1]:
+                        break
+                    if v5:
+                        o['rl'].get_range_list_at_offset(op[3], o['cus'][op[2]])
+                    else:
+                        o['rl'].get_range_list_at_offset(op[3])
+                return repr(out)
+        except Exception as ex:
+            return ('EXC', type(ex).__name__)
+        raise ValueError(op)
+
+    def rand_op():
+        k = rng.choice(['rl_at', 'rl_at', 'rl_iter', 'll_at', 'll_at', 'll_iter', 'll_iter_mixed', 'rl_iter_mixed'] +
+                       (['rl_at_ex', 'rl_cus', 'rl_cu_ex', 'rl_cu_ex_mixed', 'rl_cu_ex_mixed'] if v5 else []))
+        if k in ('rl_at', 'rl_at_ex'):
+            if not roffs:
+                return None
+            ui, off = rng.choice(roffs)
+            return (k, ui, off)
+        if k == 'll_at':
+            if not loffs:
+                return None
+            ui, off = rng.choice(loffs)
+            return (k, ui, off)
+        if k in ('rl_iter', 'll_iter'):
+            return (k, rng.choice([1, 2, 3, 100]))
+        if k == 'rl_cus':
+            return (k,)
+        if k in ('rl_cu_ex', 'rl_cu_ex_mixed'):
+            if not roffs:
+                return None
+            ui, off = rng.choice(roffs)
+            return (k, rng.randrange(len(units)), rng.choice([2, 3, 100]), off)
+        pool = loffs if k == 'll_iter_mixed' else roffs
+        if not pool:
+            return None
+        ui, off = rng.choice(pool)
+        return (k, rng.choice([2, 3, 100]), ui, off)
+    try:
+        obj = mk()
+    except Exception:
+        sh.skip('file not loadable')
+        return
+    fresh = {}
+    hist = []
+    for step in range(rng.choice([15, 40])):
+        op = rand_op()
+        if op is None:
+            continue
+        poison(obj['st'], rng)
+        got = apply(obj, op)
+        if op not in fresh:
+            # the reference for a walk with queries in between is the undisturbed walk of a fresh object
+            fresh[op] = apply(mk(), (op[0].replace('_mixed', ''),) + op[1:])
+        if got != fresh[op]:
+            sh.note_violation('C10:list answer differs from the fresh-object answer (%s, %s)' % (op[0], 'v5' if v5 else 'pre-v5'), op=op,
+                              history=hist[-10:], got=repr(got)[:300], fresh=repr(fresh[op])[:300])
+            return
+        hist.append(op)
+        sh.sig(('hist_lists', op[0], v5))
+    sh.held(n=len(hist))
+    sh.count('list_history_operations', len(hist))
+    sh.sample({'mode': 'list-history', 'v5': v5, 'units': len(units), 'operations': len(hist)}, kind='hist_lists')
+
+
 def run_case(kind, idx, rng, sh):
-    {'bfs': run_bfs, 'hist_dwarf': run_hist_dwarf, 'hist_elf': run_hist_elf, 'hist_cfi': run_hist_cfi}[kind](idx, rng, sh)
+    {'bfs': run_bfs, 'hist_dwarf': run_hist_dwarf, 'hist_elf': run_hist_elf, 'hist_cfi': run_hist_cfi, 'hist_lists': run_hist_lists}[kind](idx, rng, sh)
 
 
 def finish(m, tier, seed):
     c = m['counters']
     return {'states': max(1, c.get('bfs_states', 0)), 'transitions': max(1, c.get('bfs_transitions', 0) + c.get('dwarf_history_operations', 0) +
-                                                                          c.get('elf_history_operations', 0) + c.get('cfi_history_operations', 0)),
+                                                                          c.get('elf_history_operations', 0) + c.get('cfi_history_operations', 0) + c.get('list_history_operations', 0)),
             'traces_validated_against_impl': c.get('bfs_transitions', 0) + c.get('dwarf_history_operations', 0) + c.get('elf_history_operations', 0),
             'exhaustive': False,
             'explanation': 'states = distinct abstract cache states reached by breadth-first search on the small files; every '
